@@ -7,7 +7,8 @@ FLAGS = ["--bounds-check", "--pointer-check", "--unsigned-overflow-check"]
 R = [
     (r"InformedSampler::numIters_", "numIters_", 0), (r"baseSampler_->sampleUniform\(statePtr\);", "BASE_SAMPLE();", 0),
     (r"InformedSampler::opt_->isCostBetterThan\(InformedSampler::heuristicSolnCost\(statePtr\), maxCost\)", "BETTER_H_MAX(HEUR(), maxCost)", 0),
-    (r"Cost sampledCost = (?:InformedSampler::)?heuristicSolnCost\(statePtr\);", "double sampledCost = HEUR();", 0),
+    (r"Cost sampledCost = heuristicSolnCost\(statePtr\);", "double sampledCost = HEUR();", 0),
+    (r"Cost sampledCost = InformedSampler::heuristicSolnCost\(statePtr\);", "double sampledCost = HEUR_BASE();", 0),   # qualified call = the base-class heuristic (RejectionInfSampler does not override it: same function there)
     (r"InformedSampler::opt_->isCostEquivalentTo\(minCost, sampledCost\) \|\|\s*InformedSampler::opt_->isCostBetterThan\(minCost, sampledCost\)", "NOT_BELOW_MIN(minCost, sampledCost)", 0),
     (r"!InformedSampler::opt_->isFinite\(maxCost\)", "!FINITE_MAX", 0), (r"updatePhsDefinitions\(maxCost\);", "", 0),
     (r"informedSubSpace_->getMeasure\(\) < summedMeasure_ / static_cast<double>\(listPhsPtrs_\.size\(\)\)", "LARGE_MEASURE", 0),
@@ -33,12 +34,12 @@ for h, needs, fn, can in (
         ("pl_phsRejectBounds", ["pl_phsRejectBounds"], "PathLengthDirectInfSampler::samplePhsRejectBounds", [dict(name="bounds_not_checked", where="body:pl_phsRejectBounds", rx=r"foundSample = SAT_BOUNDS\(\);", repl="SAT_BOUNDS();")]),
         ("pl_helper", ["pl_boundsRejectPhs", "pl_phsRejectBounds", "pl_helper"], "PathLengthDirectInfSampler::sampleUniform(state, maxCost, iters)", [dict(name="success_without_sampling", where="body:pl_helper", rx=r"foundSample = pl_phsRejectBounds\(iters\);", repl="foundSample = true;")]),
         ("pl_minmax", ["pl_boundsRejectPhs", "pl_phsRejectBounds", "pl_helper", "pl_minmax"], "PathLengthDirectInfSampler::sampleUniform(state, minCost, maxCost)", [dict(name="lower_bound_ignored", where="body:pl_minmax", rx=r"foundSample = NOT_BELOW_MIN\(minCost, sampledCost\);", repl="NOT_BELOW_MIN(minCost, sampledCost);")])):
-    UNITS.append(dict(name="c15_" + h, template="C15/informed.c", mode="plain", entry="h_" + h, sources=SRC, needs=needs, flags=FLAGS, unwind=10, level="bounded", bound="numIters_ <= 3", backend="minisat", timeout=300, functions=["ompl::base::" + fn], canaries=can))
+    UNITS.append(dict(defines=({"DIRECT_SAMPLER": 1} if h.startswith("pl_") else {}), **dict(name="c15_" + h, template="C15/informed.c", mode="plain", entry="h_" + h, sources=SRC, needs=needs, flags=FLAGS, unwind=10, level="bounded", bound="numIters_ <= 3", backend="minisat", timeout=300, functions=["ompl::base::" + fn], canaries=can)))
 ASSUMPTIONS = ["the base state sampler yields states within the space bounds (its own contract: C08)", "membership in a prolate hyperspheroid of transverse diameter c is equivalent to a heuristic path-length cost below c (geometry, trusted)",
                "costs are non-NaN doubles compared by the minimising order", "numIters_ <= 10^9 and fewer than 10^9 earlier draws (32-bit counters do not wrap)"]
 TRUSTED = ["extraction rewrite table of units/C15.py", "stub contracts in units/C15/informed_unb.c and stubs in units/C15/informed.c", "CBMC 6.11 (goto-instrument DFCC) + minisat"]
 NOT_COVERED = ["the prolate-hyperspheroid transform (unit sphere surface -> summed focal distance = c), the analytic measure, uniformity of the samples, 'no improving state is excluded' (Eigen linear algebra, transcendental formulas, a distributional claim)",
-               "OrderedInfSampler, InformedStateSampler's fallback to the base sampler, keepSample's 1/K rule, ProlateHyperspheroid.cpp, GeometricEquations.cpp"]
+               "numberOfPhsInclusions / isInAnyPhs membership tests, getPhsMeasure, ProlateHyperspheroid.cpp, GeometricEquations.cpp"]
 NATIVE = []
 
 # ---- the same loops, UNBOUNDED in numIters_ (DFCC: loop contracts, stubs and callees replaced by their contracts) ----
@@ -84,6 +85,10 @@ def _with(loops):
         s = dict(s); s["loops"] = {1: loops[s["name"]]} if s["name"] in loops else {}; out.append(s)
     return out
 SRC_U = _with(dict(rej_helper=L_REJ, rej_minmax=L_RMM, pl_boundsRejectPhs=L_BRP, pl_phsRejectBounds=L_PRB, pl_minmax=L_PMM))
+SRC_U += [
+    dict(name="rej_one", file=RJ, sig=r"bool RejectionInfSampler::sampleUniform\(State \*statePtr, const Cost &maxCost\)", rules=[(r"sampleUniform\(statePtr, maxCost, &iter\)", "rej_helper(maxCost, &iter)", 1)], loops={}),
+    dict(name="pl_one", file=PL, sig=r"bool PathLengthDirectInfSampler::sampleUniform\(State \*statePtr, const Cost &maxCost\)", rules=[(r"sampleUniform\(statePtr, maxCost, &iter\)", "pl_helper(maxCost, &iter)", 1)], loops={}),
+]
 STUBS = ["BASE_SAMPLE", "PHS_SAMPLE", "CREATE_FULL_STATE", "HEUR", "BETTER_H_MAX", "NOT_BELOW_MIN", "IN_ANY_PHS", "KEEP_SAMPLE", "SAT_BOUNDS"]
 UFLAGS = FLAGS + ["--object-bits", "12"]
 for h, callees, fn, can in (
@@ -92,7 +97,57 @@ for h, callees, fn, can in (
         ("pl_boundsRejectPhs", [], "PathLengthDirectInfSampler::sampleBoundsRejectPhs", [dict(name="membership_of_the_previous_sample", where="body:pl_boundsRejectPhs", rx=r"BASE_SAMPLE\(\);(.*?)foundSample = IN_ANY_PHS\(\);", repl=r"foundSample = IN_ANY_PHS(); BASE_SAMPLE();\1")]),
         ("pl_phsRejectBounds", [], "PathLengthDirectInfSampler::samplePhsRejectBounds", [dict(name="bounds_not_checked", where="body:pl_phsRejectBounds", rx=r"foundSample = SAT_BOUNDS\(\);", repl="SAT_BOUNDS();")]),
         ("pl_helper", ["pl_boundsRejectPhs", "pl_phsRejectBounds"], "PathLengthDirectInfSampler::sampleUniform(state, maxCost, iters)", [dict(name="success_without_sampling", where="body:pl_helper", rx=r"foundSample = pl_phsRejectBounds\(iters\);", repl="foundSample = true;")]),
-        ("pl_minmax", ["pl_helper"], "PathLengthDirectInfSampler::sampleUniform(state, minCost, maxCost)", [dict(name="lower_bound_ignored", where="body:pl_minmax", rx=r"foundSample = NOT_BELOW_MIN\(minCost, sampledCost\);", repl="NOT_BELOW_MIN(minCost, sampledCost);")])):
-    nloops = 0 if h == "pl_helper" else 1
+        ("pl_minmax", ["pl_helper"], "PathLengthDirectInfSampler::sampleUniform(state, minCost, maxCost)", [dict(name="lower_bound_ignored", where="body:pl_minmax", rx=r"foundSample = NOT_BELOW_MIN\(minCost, sampledCost\);", repl="NOT_BELOW_MIN(minCost, sampledCost);")]),
+        ("rej_one", ["rej_helper"], "RejectionInfSampler::sampleUniform(state, maxCost)", [dict(name="counter_starts_at_one", where="body:rej_one", rx=r"iter = 0u;", repl="iter = 1u;")]),
+        ("pl_one", ["pl_helper"], "PathLengthDirectInfSampler::sampleUniform(state, maxCost)", [dict(name="result_dropped", where="body:pl_one", rx=r"return pl_helper\(maxCost, &iter\);", repl="pl_helper(maxCost, &iter); return true;")])):
+    nloops = 0 if h in ("pl_helper", "rej_one", "pl_one") else 1
     UNITS.append(dict(name="c15_" + h + "_unbounded", template="C15/informed_unb.c", entry="h_" + h, sources=SRC_U, enforce=[h], replace=STUBS + callees, flags=UFLAGS, level="proof",
-                      bound="numIters_ <= 10^9, unbounded in the loop", backend="minisat", timeout=300, expect_loops=nloops, functions=["ompl::base::" + fn], canaries=can))
+                      bound="numIters_ <= 10^9, unbounded in the loop", backend="minisat", timeout=300, expect_loops=nloops, functions=["ompl::base::" + fn], canaries=can, defines=({"DIRECT_SAMPLER": 1} if h.startswith("pl_") else {})))
+
+# ---- the wrappers: InformedStateSampler (fallback to the base sampler) and OrderedInfSampler (stale batches) ----
+ISS = "src/ompl/base/samplers/src/InformedStateSampler.cpp"
+ORD = "src/ompl/base/samplers/informed/src/OrderedInfSampler.cpp"
+W_RULES = [
+    (r"infSampler_->sampleUniform\(statePtr, bestCostFunc_\(\)\)", "INF_SAMPLE(BEST_COST())", 0), (r"baseSampler_->sampleUniform\(statePtr\);", "BASE_SAMPLE();", 0),
+    (r"orderedSamples_\.empty\(\)", "Q_EMPTY()", 0), (r"createBatch\(maxCost\);", "CREATE_BATCH(maxCost);", 0),
+    (r"InformedSampler::opt_->isCostBetterThan\(InformedSampler::heuristicSolnCost\(orderedSamples_\.top\(\)\),\s*maxCost\)", "BETTER(Q_TOP(), HEUR_OF(Q_TOP()), maxCost)", 0),
+    (r"InformedSampler::space_->copyState\(statePtr, orderedSamples_\.top\(\)\);", "COPY_OUT(Q_TOP());", 0), (r"InformedSampler::space_->freeState\(orderedSamples_\.top\(\)\);", "FREE(Q_TOP());", 0),
+    (r"orderedSamples_\.pop\(\);", "Q_POP();", 0), (r"clearBatch\(\);", "ord_clearBatch();", 0),
+    (r"State \*newStatePtr = InformedSampler::space_->allocState\(\);", "int newStatePtr = ALLOC();", 0), (r"infSampler_->sampleUniform\(newStatePtr, maxCost\);", "SAMPLE_INTO(newStatePtr, maxCost);", 0),
+    (r"orderedSamples_\.push\(newStatePtr\);", "Q_PUSH(newStatePtr);", 0),
+]
+W_SRC = [
+    dict(name="iss_sampleUniform", file=ISS, sig=r"void InformedStateSampler::sampleUniform\(State \*statePtr\)", rules=W_RULES, loops={}),
+    dict(name="ord_sampleUniform", file=ORD, sig=r"bool OrderedInfSampler::sampleUniform\(State \*statePtr, const Cost &maxCost\)", rules=W_RULES, loops={"allow_uncontracted": True}),
+    dict(name="ord_createBatch", file=ORD, sig=r"void OrderedInfSampler::createBatch\(const Cost &maxCost\)", rules=W_RULES, loops={"allow_uncontracted": True}),
+    dict(name="ord_clearBatch", file=ORD, sig=r"void OrderedInfSampler::clearBatch\(\)", rules=W_RULES, loops={"allow_uncontracted": True}),
+]
+_ORDN = ["ord_sampleUniform", "ord_createBatch", "ord_clearBatch"]
+for h, needs, fn, bound, can in (
+        ("iss", ["iss_sampleUniform"], ["InformedStateSampler::sampleUniform"], None, [dict(name="fallback_always", where="body:iss_sampleUniform", rx=r"if \(!informedSuccess\)", repl="if (true)")]),
+        ("ord", _ORDN, ["OrderedInfSampler::sampleUniform(state, maxCost)"], "batch size <= 3, <= 3 batches per call", [dict(name="stale_top_served", where="body:ord_sampleUniform", rx=r"if \(BETTER\(Q_TOP\(\), HEUR_OF\(Q_TOP\(\)\), maxCost\)\)", repl="if (BETTER(Q_TOP(), HEUR_OF(Q_TOP()), maxCost) || true)"),
+                                                                                                     dict(name="popped_not_freed", where="body:ord_sampleUniform", rx=r"FREE\(Q_TOP\(\)\);", repl="")]),
+        ("batch", _ORDN[1:], ["OrderedInfSampler::createBatch", "OrderedInfSampler::clearBatch"], "batch size <= 3", [dict(name="clear_without_free", where="body:ord_clearBatch", rx=r"FREE\(Q_TOP\(\)\);", repl="")])):
+    u = dict(name="c15_wrap_" + h, template="C15/wrappers.c", mode="plain", entry="h_" + h, sources=W_SRC, needs=needs, flags=FLAGS, unwind=6, backend="minisat", timeout=300, functions=["ompl::base::" + f for f in fn], canaries=can)
+    if bound: u.update(level="bounded", bound=bound)
+    else: u.update(level="proof")
+    UNITS.append(u)
+
+# ---- keepSample (1/K rule) and getInformedMeasure (symbolic measures) ----
+M_RULES = [
+    (r"listPhsPtrs_\.size\(\)", "N_PHS", 0), (r"numberOfPhsInclusions\(informedVector\)", "NUM_INCLUSIONS()", 0), (r"rng_\.uniform01\(\)", "UNIFORM01()", 0),
+    (r"1\.0 / static_cast<double>\(([^;]+?)\)\);", r"RECIP(\1));", 0),
+    (r"for \(const auto &phsPtr : listPhsPtrs_\)", "for (unsigned phs = 0; phs < N_PHS; ++phs)", 0), (r"currentCost\.value\(\) > phsPtr->getMinTransverseDiameter\(\)", "GT_MIN_DIAM(phs)", 0),
+    (r"informedMeasure = informedMeasure \+ phsPtr->getPhsMeasure\(currentCost\.value\(\)\);", "informedMeasure = ADD_MEASURE(informedMeasure, phs);", 0),
+    (r"InformedSampler::space_->isCompound\(\)", "IS_COMPOUND", 0), (r"informedMeasure \* (\w+)->getMeasure\(\)", r"TIMES_UNINFORMED(informedMeasure, \1->getMeasure())", 0),
+    (r"InformedSampler::space_->getMeasure\(\)", "WHOLE_SPACE_MEASURE()", 0), (r"\binformedSubSpace_->getMeasure\(\)", "INFORMED_SUBSPACE_MEASURE()", 0), (r"\buninformedSubSpace_->getMeasure\(\)", "UNINFORMED_MEASURE()", 0),
+    (r"std::min\(", "FMIN(", 0),
+]
+M_SRC = [
+    dict(name="pl_keepSample", file=PL, sig=r"bool PathLengthDirectInfSampler::keepSample\(const std::vector<double> &informedVector\)", rules=M_RULES, loops={}),
+    dict(name="pl_getInformedMeasure", file=PL, sig=r"double PathLengthDirectInfSampler::getInformedMeasure\(const Cost &currentCost\) const", rules=M_RULES, loops={"allow_uncontracted": True}),
+]
+UNITS.append(dict(name="c15_keepSample", template="C15/phs_misc.c", mode="plain", entry="h_keepSample", sources=M_SRC, needs=["pl_keepSample"], flags=FLAGS, unwind=18, backend="minisat", timeout=300, level="proof",
+                  functions=["ompl::base::PathLengthDirectInfSampler::keepSample"], canaries=[dict(name="one_over_all", where="body:pl_keepSample", rx=r"RECIP\(numIn\)", repl="RECIP(N_PHS)")]))
+UNITS.append(dict(name="c15_getInformedMeasure", template="C15/phs_misc.c", mode="plain", entry="h_measure", sources=M_SRC, needs=["pl_getInformedMeasure"], flags=FLAGS, unwind=18, backend="minisat", timeout=300, level="bounded", bound="<= 4 hyperspheroids",
+                  functions=["ompl::base::PathLengthDirectInfSampler::getInformedMeasure(cost)"], canaries=[dict(name="cap_by_informed_subspace", where="body:pl_getInformedMeasure", rx=r"WHOLE_SPACE_MEASURE\(\)", repl="INFORMED_SUBSPACE_MEASURE()")]))
